@@ -7,8 +7,10 @@
    (output digits, input digits) — the merged tensor theta of update_mpo — contracting a gate with the output digits replaces every
    entry of the represented operator by the entry of G.O, contracting the conjugated gate with the input digits by the entry of
    O.G^dagger, and the chain with the merged tensor has the entries of the chain with the two original tensors.
-   PARTIAL: that numpy's einsum/SVD compute these contractions and an exact re-splitting (no truncation above the threshold), and the
-   long-range gate's MPO, are tied numerically (dense product for arbitrary pairs). *)
+   The product of two operators held as tensor trains (the long-range gate's MPO times the checker's MPO) is mechanised as well: entry by
+   entry it is the matrix product.
+   PARTIAL: that numpy's einsum/SVD compute these contractions and an exact re-splitting (no truncation above the threshold) is tied
+   numerically (dense product for arbitrary pairs). *)
 From Coq Require Import Reals PrimFloat.
 From Coquelicot Require Import Coquelicot.
 From Coq Require Import List.
@@ -92,6 +94,17 @@ Theorem C04_merged_tensor_keeps_entries : forall (K : Type) (k0 k1 : K) (kadd km
       (spre ++ ((q / (dd * dd) / dd) * dd + (q mod (dd * dd)) / dd)%nat :: ((q / (dd * dd) mod dd) * dd + (q mod (dd * dd)) mod dd)%nat :: spost).
 Proof. exact TT.merged_mpo_amplitudes. Qed.
 Print Assumptions C04_merged_tensor_keeps_entries.
+
+(* the product of two operators held as tensor trains (a long-range gate's MPO times the MPO of the checker): physical legs contracted site
+   by site, bonds paired — every entry of the product chain is the sum over the intermediate digit string of the products of the entries *)
+Theorem C04_mpo_product_is_operator_product : forall (K : Type) (k0 k1 : K) (kadd kmul ksub : K -> K -> K) (kopp : K -> K),
+  ring_theory k0 k1 kadd kmul ksub kopp (@eq K) ->
+  forall (dd : nat) (gs ms : list (TT.site K)) (sigma : list nat), length ms = length gs -> length sigma = length gs ->
+  TT.chained_from K 1%nat ms -> TT.last_chi K 1%nat ms = 1%nat ->
+  TT.amp K k0 k1 kadd kmul (TT.mul_chain K k0 kadd kmul dd gs ms) sigma
+  = TT.ksum K k0 kadd dd sigma (fun ks => kmul (TT.amp K k0 k1 kadd kmul gs (TT.mid_out dd sigma ks)) (TT.amp K k0 k1 kadd kmul ms (TT.mid_in dd sigma ks))).
+Proof. exact TT.mpo_product_is_operator_product. Qed.
+Print Assumptions C04_mpo_product_is_operator_product.
 
 Local Open Scope nat_scope.
 Example C04_checker_example :
